@@ -466,3 +466,51 @@ def gen_code(r, lims):
     if not out:
         out.append(49)
     return cons, pt, pre, rl, bytes(out)
+
+
+# ---------------------------------------------------------------------------------------------------------------------------
+# building a pass from rule records (Pass::readRules)
+
+def build_pass(rules, base=0, flags=0, max_loop=5, min_pre=0, max_pre=0, pconstraint=b"", rule_map=None, fix=None):
+    """-> pass bytes.  `rules` = [(pre_context, sort_key, constraint bytes, action bytes)]; a two-state machine over one glyph column
+    whose success state lists `rule_map` (default: every rule).  `fix(dict of field offsets, bytearray)` may patch the result."""
+    n = len(rules)
+    rule_map = list(range(n)) if rule_map is None else rule_map
+    ranges = struct.pack(">HHH", 0, 0, 0)
+    o_rule_map = struct.pack(">HH", 0, len(rule_map))
+    rmap = b"".join(struct.pack(">H", x & 0xFFFF) for x in rule_map)
+    starts = b"".join(struct.pack(">H", 0) for _ in range(max_pre - min_pre + 1))
+    sort = b"".join(struct.pack(">H", r[1] & 0xFFFF) for r in rules)
+    pre = bytes(r[0] & 255 for r in rules)
+    oc, oa, rc, ac = [], [], b"\0" if any(r[2] for r in rules) else b"", b""
+    # constraint offset 0 means "no constraint": real constraint code starts at offset 1
+    for r in rules:
+        if r[2]:
+            oc.append(len(rc))
+            rc += r[2]
+        else:
+            oc.append(0)
+        oa.append(len(ac))
+        ac += r[3]
+    oc.append(len(rc))
+    oa.append(len(ac))
+    trans = struct.pack(">H", 1)
+    body = ranges + o_rule_map + rmap + bytes([min_pre, max_pre]) + starts
+    off = {"sort": 40 + len(body)}
+    body += sort
+    off["pre"] = 40 + len(body)
+    body += pre + b"\0" + struct.pack(">H", len(pconstraint))
+    off["oc"] = 40 + len(body)
+    body += b"".join(struct.pack(">H", x & 0xFFFF) for x in oc)
+    off["oa"] = 40 + len(body)
+    body += b"".join(struct.pack(">H", x & 0xFFFF) for x in oa)
+    body += trans + b"\0"
+    pc = base + 40 + len(body)
+    rcp = pc + len(pconstraint)
+    acp = rcp + len(rc)
+    hdr = struct.pack(">BBBBHHIIIIHHHHHHHH", flags, max_loop, 0, 0, n, 0, pc, rcp, acp, 0, 2, 1, 1, 1, 1, 0, 0, 0)
+    assert len(hdr) == 40
+    b = bytearray(hdr + body + pconstraint + rc + ac)
+    if fix:
+        fix(off, b)
+    return bytes(b)
